@@ -28,8 +28,9 @@ class Unsupported(Exception):
 # kinds: 'int' 'bool' 'str' 'list' 'dict' 'mv' 'coef' 'fun' 'alg' 'tuple' 'opt:<kind>' 'signs' None(unknown)
 class T:
     """a translation target"""
-    def __init__(self, file, qual, lean, params, ret, locals=None, tparams='', uses_alg=False, coef=False, self_name=None, uses_ops=False, uses_mops=False, consts=None, state=None, externals=None, drop_assign=(), env=None, state_type=None, region=None, self_locals=(), strkey=(), extra_params=(), skip_if=(), prelude_lets=(), fuel=()):
+    def __init__(self, file, qual, lean, params, ret, locals=None, tparams='', uses_alg=False, coef=False, self_name=None, uses_ops=False, uses_mops=False, consts=None, state=None, externals=None, drop_assign=(), env=None, state_type=None, region=None, self_locals=(), strkey=(), extra_params=(), skip_if=(), prelude_lets=(), fuel=(), region_body_only=False):
         self.file, self.qual, self.lean = file, qual, lean
+        self.region_body_only = region_body_only   # the region's test is a precondition: only its body is translated
         self.fuel = list(fuel)        # fuel expressions (Lean) of the `while` loops, in order of appearance
         self.params = params          # list of (pyname, leantype, kind)
         self.ret = ret
@@ -196,8 +197,17 @@ TARGETS = [
                  'mv.values()': ('mv.values', 'vals'), 'mv.algebra.wrapper': ('env.wrapper', 'opt:fun'),
                  'self.algebra.simp_func': ('env.simp_func', 'bool'), 'self.filter(keys_out, values_out)': ('(env.filter keys_out values_out)', 'tuple'),
                  'MultiVector.fromkeysvalues(self.algebra, keys=keys_out, values=values_out)': ('(keys_out, values_out)', 'tuple')}),
+    # ---- the keyword-blade branch of MultiVector.__new__ (`alg.multivector(e12=1, e31=2)`): one region of the method; the
+    #      region's own test (`items and keys is None and values is None`) is its precondition ----
+    T('kingdon/multivector.py', 'MultiVector.__new__', 'mv_new_keywords', [('items', 'Py.Dict (List Char) α', 'dict')],
+      'List (List Char) × List α', tparams='{α : Type} [Neg α]', uses_alg=True, self_name='algebra',
+      region='items and keys is None and (values is None)', region_body_only=True,
+      externals={'list(items.keys())': ('(Py.dictKeys items)', 'list:str'), 'algebra._blade2canon(key)': ('(← blade2canon alg key)', 'tuple:str,int')},
+      locals={'target': ('List Char', 'str'), 'swaps': ('Int', 'int'), 'keys': ('List (List Char)', 'list:str'), 'values': ('List α', 'list:coef')}),
 ]
 for _t in TARGETS:
+    if _t.lean == 'mv_new_keywords':
+        _t.ret_names = ['keys', 'values']
     if _t.lean in ('type_number', 'type_name'):
         _t.is_property = True
     if _t.lean == 'post_init_names':
@@ -309,7 +319,7 @@ def region_function(t, fn):
     node = _SelfToLocal(t.self_locals).visit(copy.deepcopy(hit[0]))
     ret = ast.Return(value=ast.Tuple(elts=[ast.Name(id=n, ctx=ast.Load()) for n in t.ret_names], ctx=ast.Load()))
     args = ast.arguments(posonlyargs=[], args=[ast.arg(arg=p) for p, _, _ in t.params], kwonlyargs=[], kw_defaults=[], defaults=[])
-    f2 = ast.FunctionDef(name=fn.name, args=args, body=[node, ret], decorator_list=[], lineno=hit[0].lineno, col_offset=0)
+    f2 = ast.FunctionDef(name=fn.name, args=args, body=(list(node.body) + [ret]) if t.region_body_only else [node, ret], decorator_list=[], lineno=hit[0].lineno, col_offset=0)
     ast.fix_missing_locations(f2)
     f2.lineno = hit[0].lineno
     f2._src_node = hit[0]
@@ -665,6 +675,8 @@ class Tr:
                 raise Unsupported('comprehension form')
             g = node.generators[0]
             it, kit = self.E(g.iter)
+            if (kit or '').startswith('dict:') and isinstance(g.target, ast.Name):
+                it = f'(Py.dictKeys {it})'          # iterating a dict yields its keys
             saved = dict(self.kinds)
             self.comp_target_kinds(g.target, g.iter, kit)
             npre = len(self.pre)
@@ -684,6 +696,9 @@ class Tr:
             if '←' in body or '←' in (cond or '') or '←' in lets:
                 if cond is None:
                     return f'(← ({it}).mapM (fun {pat} => do pure {body}))', ek
+                if '←' in body:
+                    # the element is only evaluated for the items that pass the filter (it may raise for the others)
+                    return f'((← ({it}).mapM (fun {pat} => do {lets}if {cond} then (do pure (some {body})) else pure none)).filterMap id)', ek
                 return f'((← ({it}).mapM (fun {pat} => do {lets}pure (if {cond} then some {body} else none))).filterMap id)', ek
             if cond is None:
                 return f'(({it}).map (fun {pat} => {body}))', ek
@@ -806,6 +821,8 @@ class Tr:
             assign(tg, 'int')
         elif isinstance(it, ast.Name) and self.kinds.get(it.id) == 'list:int':
             assign(tg, 'int')
+        elif self.t.externals and ast.unparse(it) in self.t.externals and self.t.externals[ast.unparse(it)][1] == 'list:str':
+            assign(tg, 'str')
         else:
             assign(tg, None)
 
@@ -1100,6 +1117,27 @@ class Tr:
                 if isinstance(c.func, ast.Name) and c.func.id == 'print':
                     return []                                  # diagnostics: no effect on the result
             raise Unsupported('expression statement')
+        if isinstance(st, ast.Assign) and len(st.targets) == 1 and isinstance(st.targets[0], ast.Name) and isinstance(st.value, ast.Call) \
+                and isinstance(st.value.func, ast.Attribute) and st.value.func.attr == 'pop' and isinstance(st.value.func.value, ast.Name) \
+                and self.kinds.get(st.value.func.value.id) == 'dict' and len(st.value.args) == 1:
+            # `v = d.pop(k)` on a dict: the value (KeyError when absent), and the entry is gone
+            dn = st.value.func.value.id
+            kc, _ = self.E(st.value.args[0])
+            line = self.bind(st.targets[0].id, f'(← Py.dictGet {dn} {kc})', 'coef')
+            return self.flush(ind) + [ind + line, f'{ind}{dn} := Py.dictDel {dn} {kc}']
+        if isinstance(st, ast.Assign) and len(st.targets) == 1 and isinstance(st.targets[0], ast.Tuple) and len(st.targets[0].elts) == 2 \
+                and all(isinstance(e, ast.Name) for e in st.targets[0].elts) and isinstance(st.value, ast.Call) and isinstance(st.value.func, ast.Name) \
+                and st.value.func.id == 'zip' and len(st.value.args) == 1 and isinstance(st.value.args[0], ast.Starred) \
+                and isinstance(st.value.args[0].value, ast.GeneratorExp):
+            # `ks, vs = zip(*((k, v) for ..))`: the two columns of the pairs; python raises ValueError (not enough values to
+            # unpack) when there is no pair
+            pairs, _ = self.E(st.value.args[0].value)
+            tmp = self.fresh('pairs')
+            a, b = (e.id for e in st.targets[0].elts)
+            out = self.flush(ind) + [f'{ind}let {tmp} := {pairs}', f'{ind}if {tmp}.isEmpty then throw "ValueError"']
+            out.append(ind + self.bind(a, f'({tmp}.map (·.1))', self.kinds.get(a)))
+            out.append(ind + self.bind(b, f'({tmp}.map (·.2))', self.kinds.get(b)))
+            return out
         if isinstance(st, ast.Assign) and len(st.targets) == 1 and isinstance(st.targets[0], ast.Attribute) and st.targets[0].attr == '_values' \
                 and isinstance(st.targets[0].value, ast.Name) and self.kinds.get(st.targets[0].value.id) == 'mv' and self.t.uses_ops:
             # `W._values = tuple(v / j for v in W._values)`: every coefficient divided by the integer j
